@@ -200,9 +200,11 @@ class Engine:
         st.old = dict(st.env)
         for stmt_src in c.get('ghost_init', []):
             for stmt in ast.parse(stmt_src).body:
+                st.spec = True
                 res = self.exec_stmt(st, stmt)
                 assert len(res) == 1 and res[0][1][0] == NORMAL
                 st = res[0][0]
+                st.spec = False
         if not self.feasible(st):
             raise SpecError(f'{self.qualname}: precondition is unsatisfiable (vacuous contract)')
         self.entry_pc = list(st.pc)
@@ -586,7 +588,11 @@ class Engine:
             self.oblige(st, self.spec_bool(e, st), f'yield[{j}]@L{stmt.lineno}', 'yield', stmt, note=e)
         for src in c.get('yield_update', []):
             for s2 in ast.parse(src).body:
-                res = self._exec_stmt(st, s2)
+                st.spec = True          # ghost code: spec functions allowed, no obligations
+                try:
+                    res = self._exec_stmt(st, s2)
+                finally:
+                    st.spec = False
                 assert len(res) == 1
         if ysort and 'yields' in st.env:
             st.env['yields'] = list_append(st.env['yields'], val)
@@ -1045,6 +1051,9 @@ class Engine:
         if isinstance(base, VUnknown):
             return VUnknown(f'{base.why}[...]')
         raise Unsupported(f'subscript of {base!r} with {idx!r}')
+
+    def ev_Slice(self, node, st):
+        return VSlice(*[(self.ev(p, st) if p is not None else VNone()) for p in (node.lower, node.upper, node.step)])
 
     def ev_Lambda(self, node, st):
         return VFunc(('lambda', node, dict(st.env)))
